@@ -1,3 +1,401 @@
 import HapVerif.Model.C08
+import HapVerif.Generated.Facts
+/-!
+C08 — only Ingresses classified for this controller are ever configured.
+
+  * `valid_iff_spec`, `spec_documented`: `IsValidIngress` (model, transcribed branch by branch)
+    equals the documented rule on all 3 x 4 x 2 x 2 combinations.
+  * `getIngress_filter`, `getIngressList_filter`: the two readers return exactly the valid objects.
+  * `classify_wanted`: one watcher event is listed where the rule wants it.
+  * `configured_eq_valid` / `configured_eq_selected`: over ALL histories of create / update /
+    delete operations on any number of ingresses, the set of ingresses that contribute equals
+    `{i | exists and selected}` (interface to C01: Add converts, Del removes what it had added,
+    Upd re-converts); `lists_consistent`: Add only names ingresses that do not contribute,
+    Upd/Del only ones that do.
+  * IngressClass objects that change under a living ingress: `class_events_full` (configured =
+    selected over all histories of ingress and IngressClass events, because the IngressClass
+    handler asks for a full sync); without that flag the equality is FALSE
+    (`class_events_full_fails_without_full`) and only safety remains.
+-/
 namespace HapVerif.C08
+
+/-! ### the rule -/
+
+theorem valid_iff_spec (cfg : Cfg) (h : cfg.ctrlEmpty = false) (a : Ann) (c : Cls) :
+    isValidIngress cfg a c = spec cfg a c := by
+  rcases cfg with ⟨w, p, e⟩
+  simp only at h
+  subst h
+  cases w <;> cases p <;> cases a <;> cases c <;> rfl
+
+/-- the Spec, spelled out as the documentation does -/
+theorem spec_documented (cfg : Cfg) (a : Ann) (c : Cls) :
+    spec cfg a c = true ↔
+      (a = .absent ∧ c = .absent ∧ cfg.watch = true) ∨
+      (a = .absent ∧ c = .ours) ∨
+      (a = .ours ∧ c = .absent) ∨
+      (a ≠ .absent ∧ c ≠ .absent ∧
+        ((a = .ours ∧ c = .ours) ∨
+         (a = .ours ∧ c ≠ .ours ∧ cfg.prec = false) ∨
+         (a ≠ .ours ∧ c = .ours ∧ cfg.prec = true))) := by
+  rcases cfg with ⟨w, p, e⟩
+  cases w <;> cases p <;> cases a <;> cases c <;> simp [spec, annSays, clsSays]
+
+/-- all 48 rows, as one checked table: (watch, prec, ann, cls) ↦ selected -/
+theorem table_48 :
+    (([false, true].flatMap fun w => [false, true].flatMap fun p =>
+      [Ann.absent, .ours, .foreign].flatMap fun a => [Cls.absent, .ours, .foreign, .dangling].map fun c =>
+        isValidIngress ⟨w, p, false⟩ a c)) =
+    [ -- watch=0 prec=0:  ann absent | ours | foreign  x  cls absent, ours, foreign, dangling
+      false, true, false, false,   true, true, true, true,     false, false, false, false,
+      -- watch=0 prec=1
+      false, true, false, false,   true, true, false, false,   false, true, false, false,
+      -- watch=1 prec=0
+      true, true, false, false,    true, true, true, true,     false, false, false, false,
+      -- watch=1 prec=1
+      true, true, false, false,    true, true, false, false,   false, true, false, false ] := by
+  decide
+
+/-- a name without IngressClass object never selects by itself -/
+theorem dangling_never_selects (cfg : Cfg) (h : cfg.ctrlEmpty = false) :
+    isValidIngress cfg .absent .dangling = false := by
+  rw [valid_iff_spec cfg h]; rfl
+
+/-- why `ctrlEmpty = false` is needed: `GetIngressClass` hands back a zero object with the
+error, so with an empty controller name a dangling reference would select -/
+example : isValidIngress ⟨false, false, true⟩ .absent .dangling = true := by decide
+
+/-- non-vacuity: annotation wins / class wins with the precedence flag -/
+example : isValidIngress ⟨false, false, false⟩ .ours .foreign = true ∧
+          isValidIngress ⟨false, true, false⟩ .ours .foreign = false ∧
+          isValidIngress ⟨false, true, false⟩ .foreign .ours = true ∧
+          isValidIngress ⟨true, false, false⟩ .absent .absent = true := by decide
+
+theorem getIngress_filter (cfg : Cfg) (h : cfg.ctrlEmpty = false) (o : Option (Ann × Cls)) :
+    getIngress cfg o = true ↔ ∃ a c, o = some (a, c) ∧ spec cfg a c = true := by
+  cases o with
+  | none => simp [getIngress]
+  | some x =>
+    rcases x with ⟨a, c⟩
+    simp only [getIngress, valid_iff_spec cfg h, Option.some.injEq, Prod.mk.injEq]
+    constructor
+    · intro hv; exact ⟨a, c, ⟨rfl, rfl⟩, hv⟩
+    · rintro ⟨a', c', ⟨rfl, rfl⟩, hv⟩; exact hv
+
+theorem getIngressList_filter {α} (cfg : Cfg) (h : cfg.ctrlEmpty = false)
+    (l : List (α × Ann × Cls)) (x : α) :
+    x ∈ getIngressList cfg l ↔ ∃ a c, (x, a, c) ∈ l ∧ spec cfg a c = true := by
+  simp only [getIngressList, List.mem_map, List.mem_filter, valid_iff_spec cfg h]
+  constructor
+  · rintro ⟨⟨y, a, c⟩, ⟨hm, hv⟩, rfl⟩; exact ⟨a, c, hm, hv⟩
+  · rintro ⟨a, c, hm, hv⟩; exact ⟨(x, a, c), ⟨hm, hv⟩, rfl⟩
+
+/-- an unselected ingress is in no list -/
+example : getIngressList ⟨false, false, false⟩ [(1, Ann.ours, Cls.absent), (2, .foreign, .ours), (3, .absent, .ours)]
+    = [1, 3] := by decide
+
+/-! ### one event -/
+
+theorem valid_eq_selected (cfg : Cfg) (h : cfg.ctrlEmpty = false) (o : Obj) :
+    o.valid cfg = o.selected cfg := valid_iff_spec cfg h o.ann o.cls
+
+/-- when the class-relevant part or anything the predicates watch is untouched, validity cannot flip -/
+theorem unchanged_same_validity (cfg : Cfg) (o n : Obj) (h : changed o n = false) :
+    o.valid cfg = n.valid cfg := by
+  simp only [changed, Bool.or_eq_false_iff, bne_eq_false_iff_eq] at h
+  simp [Obj.valid, h.1.1.1, h.1.2]
+
+theorem classify_wanted (cfg : Cfg) (h : cfg.ctrlEmpty = false) (ev : Ev) :
+    classify cfg ev ∈ wanted cfg ev := by
+  cases ev with
+  | create n =>
+    simp only [classify, wanted, valid_eq_selected cfg h]
+    cases n.selected cfg <;> simp
+  | delete o =>
+    simp only [classify, wanted, valid_eq_selected cfg h]
+    cases o.selected cfg <;> simp
+  | update o n =>
+    cases hc : changed o n with
+    | false =>
+      have hs := unchanged_same_validity cfg o n hc
+      simp only [valid_eq_selected cfg h] at hs
+      simp only [classify, wanted, valid_eq_selected cfg h, hc, hs]
+      cases n.selected cfg <;> simp
+    | true =>
+      simp only [classify, wanted, valid_eq_selected cfg h, hc]
+      cases o.selected cfg <;> cases n.selected cfg <;> simp
+
+/-- every oracle clause is quiet on the model's own answer -/
+theorem oracleEvent_model (cfg : Cfg) (h : cfg.ctrlEmpty = false) (ev : Ev) :
+    oracleEvent cfg ev (classify cfg ev) = none := by
+  have := classify_wanted cfg h ev
+  simp [oracleEvent, this]
+
+/-! ### all histories -/
+
+theorem set_same {α} (f : Nat → α) (i : Nat) (v : α) : set f i v i = v := by simp [set]
+theorem set_other {α} (f : Nat → α) (i j : Nat) (v : α) (h : j ≠ i) : set f i v j = f j := by simp [set, h]
+
+def Inv (cfg : Cfg) (s : St) : Prop := ∀ i, s.contrib i = validAt cfg s.world i
+
+theorem inv_init (cfg : Cfg) : Inv cfg St.init := by intro i; rfl
+
+theorem inv_step (cfg : Cfg) (s : St) (op : Op) (h : Inv cfg s) : Inv cfg (step cfg s op) := by
+  intro j
+  cases op with
+  | create i n =>
+    cases hw : s.world i with
+    | some o => simpa [step, eventOf, hw] using h j
+    | none =>
+      simp only [step, eventOf, worldAfter, hw, classify]
+      by_cases hj : j = i
+      · subst hj
+        cases hv : n.valid cfg <;> simp [applyAct, validAt, set, hv]
+        have := h j; simp [validAt, hw] at this; exact this
+      · have := h j
+        cases hv : n.valid cfg <;> simp [applyAct, validAt, set, hj] <;> simpa [validAt] using this
+  | delete i =>
+    cases hw : s.world i with
+    | none => simpa [step, eventOf, hw] using h j
+    | some o =>
+      simp only [step, eventOf, worldAfter, hw, classify]
+      by_cases hj : j = i
+      · subst hj
+        cases hv : o.valid cfg <;> simp [applyAct, validAt, set]
+        have := h j; simp [validAt, hw, hv] at this; exact this
+      · have := h j
+        cases hv : o.valid cfg <;> simp [applyAct, validAt, set, hj] <;> simpa [validAt] using this
+  | update i n =>
+    cases hw : s.world i with
+    | none => simpa [step, eventOf, hw] using h j
+    | some o =>
+      simp only [step, eventOf, worldAfter, hw]
+      have hi := h i
+      simp only [validAt, hw] at hi
+      by_cases hj : j = i
+      · subst hj
+        simp only [validAt, set_same]
+        cases hc : changed o n with
+        | false =>
+          have := unchanged_same_validity cfg o n hc
+          simp [classify, hc, applyAct, hi, this]
+        | true =>
+          cases ho : o.valid cfg <;> cases hn : n.valid cfg <;>
+            simp [classify, hc, ho, hn, applyAct, set] <;> simp [hi, ho]
+      · have hjj := h j
+        simp only [validAt] at hjj
+        simp only [validAt, set_other _ _ _ _ hj]
+        cases hc : changed o n <;> cases ho : o.valid cfg <;> cases hn : n.valid cfg <;>
+          simp [classify, hc, ho, hn, applyAct, set, hj] <;> exact hjj
+
+theorem inv_foldl (cfg : Cfg) (ops : List Op) (s : St) (h : Inv cfg s) :
+    Inv cfg (ops.foldl (step cfg) s) := by
+  induction ops generalizing s with
+  | nil => exact h
+  | cons op rest ih => exact ih _ (inv_step cfg s op h)
+
+/-- **configured = valid**, every history, every ingress -/
+theorem configured_eq_valid (cfg : Cfg) (ops : List Op) (i : Nat) :
+    (run cfg ops).contrib i = validAt cfg (run cfg ops).world i :=
+  inv_foldl cfg ops St.init (inv_init cfg) i
+
+def selectedAt (cfg : Cfg) (w : Nat → Option Obj) (i : Nat) : Bool :=
+  match w i with
+  | some o => o.selected cfg
+  | none => false
+
+/-- … hence = the documented rule applied to the current API object -/
+theorem configured_eq_selected (cfg : Cfg) (h : cfg.ctrlEmpty = false) (ops : List Op) (i : Nat) :
+    (run cfg ops).contrib i = selectedAt cfg (run cfg ops).world i := by
+  rw [configured_eq_valid]
+  simp only [validAt, selectedAt]
+  cases (run cfg ops).world i with
+  | none => rfl
+  | some o => exact valid_eq_selected cfg h o
+
+/-- the lists are consistent with the configuration: the event that follows any history is
+listed as Add only if the ingress does not contribute, as Upd or Del only if it does
+(what C01 needs: Del has something to remove, Add does not duplicate) -/
+theorem lists_consistent (cfg : Cfg) (ops : List Op) (op : Op) (i : Nat) (ev : Ev)
+    (he : eventOf (run cfg ops) op = some (i, ev)) :
+    (classify cfg ev = .add → (run cfg ops).contrib i = false) ∧
+    (classify cfg ev = .upd → (run cfg ops).contrib i = true) ∧
+    (classify cfg ev = .del → (run cfg ops).contrib i = true) := by
+  have hinv := configured_eq_valid cfg ops
+  generalize run cfg ops = s at he hinv
+  cases op with
+  | create k n =>
+    cases hw : s.world k with
+    | some o => simp [eventOf, hw] at he
+    | none =>
+      simp only [eventOf, hw, Option.some.injEq, Prod.mk.injEq] at he
+      obtain ⟨rfl, rfl⟩ := he
+      have := hinv k
+      simp only [validAt, hw] at this
+      cases hv : n.valid cfg <;> simp [classify, hv, this]
+  | delete k =>
+    cases hw : s.world k with
+    | none => simp [eventOf, hw] at he
+    | some o =>
+      simp only [eventOf, hw, Option.some.injEq, Prod.mk.injEq] at he
+      obtain ⟨rfl, rfl⟩ := he
+      have := hinv k
+      simp only [validAt, hw] at this
+      cases hv : o.valid cfg <;> simp [classify, hv, this]
+  | update k n =>
+    cases hw : s.world k with
+    | none => simp [eventOf, hw] at he
+    | some o =>
+      simp only [eventOf, hw, Option.some.injEq, Prod.mk.injEq] at he
+      obtain ⟨rfl, rfl⟩ := he
+      have := hinv k
+      simp only [validAt, hw] at this
+      cases hc : changed o n <;> cases ho : o.valid cfg <;> cases hn : n.valid cfg <;>
+        simp [classify, hc, ho, hn, this]
+
+/-- non-vacuity: annotation flips in and out, then the class reference brings it back -/
+example :
+    let cfg : Cfg := ⟨false, false, false⟩
+    let ops := [Op.create 0 { ann := .foreign, cls := .absent }, .update 0 { ann := .ours, cls := .absent },
+                .create 1 { ann := .absent, cls := .ours }, .update 0 { ann := .absent, cls := .dangling },
+                .update 0 { ann := .absent, cls := .ours }, .delete 1]
+    ((run cfg ops).contrib 0, (run cfg ops).contrib 1, (run cfg (ops.take 4)).contrib 0,
+     (run cfg (ops.take 4)).contrib 1) = (true, false, false, true) := by decide
+
+/-! ### IngressClass objects changing under a living ingress -/
+
+def allAnn : List Ann := [.absent, .ours, .foreign]
+def allClassObj : List ClassObj := [.none, .ours, .foreign]
+def allIng2 : List Ing2 := allAnn.flatMap fun a => [⟨a, false⟩, ⟨a, true⟩]
+def allOp2 : List Op2 :=
+  allIng2.map .ingCreate ++ allIng2.map .ingUpdate ++ [.ingDelete] ++ allClassObj.map .classSet
+def allSt2 : List St2 :=
+  allClassObj.flatMap fun k => (none :: allIng2.map some).flatMap fun i => [⟨k, i, false⟩, ⟨k, i, true⟩]
+def allCfg : List Cfg := [⟨false, false, false⟩, ⟨false, true, false⟩, ⟨true, false, false⟩, ⟨true, true, false⟩]
+
+theorem mem_allIng2 (i : Ing2) : i ∈ allIng2 := by
+  rcases i with ⟨a, r⟩; cases a <;> cases r <;> decide
+theorem mem_allOp2 (op : Op2) : op ∈ allOp2 := by
+  cases op with
+  | ingCreate i => rcases i with ⟨a, r⟩; cases a <;> cases r <;> decide
+  | ingUpdate i => rcases i with ⟨a, r⟩; cases a <;> cases r <;> decide
+  | ingDelete => decide
+  | classSet k => cases k <;> decide
+theorem mem_allSt2 (s : St2) : s ∈ allSt2 := by
+  rcases s with ⟨k, i, c⟩
+  cases i with
+  | none => cases k <;> cases c <;> decide
+  | some i => rcases i with ⟨a, r⟩; cases k <;> cases c <;> cases a <;> cases r <;> decide
+theorem mem_allCfg (cfg : Cfg) (h : cfg.ctrlEmpty = false) : cfg ∈ allCfg := by
+  rcases cfg with ⟨w, p, e⟩; simp only at h; subst h; cases w <;> cases p <;> decide
+
+/-- safety invariant: configured ⇒ the ingress exists and is selected -/
+def safe2 (cfg : Cfg) (s : St2) : Bool := !s.contrib || selectedNow cfg s
+
+def exact2 (cfg : Cfg) (s : St2) : Bool := s.contrib == selectedNow cfg s
+
+theorem exact2_step_all :
+    (allCfg.all fun cfg => allSt2.all fun s => allOp2.all fun op =>
+      !(exact2 cfg s) || exact2 cfg (step2 cfg true s op)) = true := by decide
+
+/-- **configured = selected** over every history of ingress AND IngressClass events (create /
+update / delete of the class object the ingress names), one reconciliation per event: the
+ingress is part of the configuration iff it exists and the documented rule selects it -/
+theorem class_events_full (cfg : Cfg) (h : cfg.ctrlEmpty = false) (ops : List Op2) :
+    (run2 cfg true ops).contrib = selectedNow cfg (run2 cfg true ops) := by
+  have key : ∀ (ops : List Op2) (s : St2), exact2 cfg s = true →
+      exact2 cfg (ops.foldl (step2 cfg true) s) = true := by
+    intro ops
+    induction ops with
+    | nil => intro s hs; exact hs
+    | cons op rest ih =>
+      intro s hs
+      refine ih _ ?_
+      have := exact2_step_all
+      simp only [List.all_eq_true] at this
+      have := this cfg (mem_allCfg cfg h) s (mem_allSt2 s) op (mem_allOp2 op)
+      simpa [hs] using this
+  have := key ops {} (by rfl)
+  unfold run2
+  simpa [exact2] using this
+
+/-- never configured while unselected (corollary, kept because it is the security half) -/
+theorem class_events_safe (cfg : Cfg) (h : cfg.ctrlEmpty = false) (ops : List Op2) :
+    (run2 cfg true ops).contrib = true → selectedNow cfg (run2 cfg true ops) = true := by
+  intro hc; rw [← class_events_full cfg h ops]; exact hc
+
+/-- non-vacuity: the IngressClass appears after the ingress that names it, later turns foreign -/
+example :
+    ((run2 ⟨false, false, false⟩ true [.ingCreate ⟨.absent, true⟩]).contrib,
+     (run2 ⟨false, false, false⟩ true [.ingCreate ⟨.absent, true⟩, .classSet .ours]).contrib,
+     (run2 ⟨false, false, false⟩ true [.ingCreate ⟨.absent, true⟩, .classSet .ours, .classSet .foreign]).contrib)
+    = (false, true, false) := by decide
+
+/-! Why the IngressClass handler must ask for a full sync (`full: true`, fact
+`c08IngressClassFull`): without it `syncPartial` only re-reads ingresses the tracker already
+links to the class, and an IngressClass that appears (or becomes ours) after the ingress that
+names it leaves the ingress unconfigured until an unrelated full sync.  Safety still holds,
+liveness does not. -/
+
+theorem safe2_step_all_partial :
+    (allCfg.all fun cfg => allSt2.all fun s => allOp2.all fun op =>
+      !(safe2 cfg s) || safe2 cfg (step2 cfg false s op)) = true := by decide
+
+theorem class_events_safe_without_full (cfg : Cfg) (h : cfg.ctrlEmpty = false) (ops : List Op2) :
+    (run2 cfg false ops).contrib = true → selectedNow cfg (run2 cfg false ops) = true := by
+  have key : ∀ (ops : List Op2) (s : St2), safe2 cfg s = true →
+      safe2 cfg (ops.foldl (step2 cfg false) s) = true := by
+    intro ops
+    induction ops with
+    | nil => intro s hs; exact hs
+    | cons op rest ih =>
+      intro s hs
+      refine ih _ ?_
+      have := safe2_step_all_partial
+      simp only [List.all_eq_true] at this
+      have := this cfg (mem_allCfg cfg h) s (mem_allSt2 s) op (mem_allOp2 op)
+      simpa [hs] using this
+  have := key ops {} (by rfl)
+  intro hc
+  unfold run2 at hc ⊢
+  simpa [safe2, hc] using this
+
+theorem class_events_full_fails_without_full :
+    ∃ cfg : Cfg, cfg.ctrlEmpty = false ∧ ∃ ops : List Op2,
+      (run2 cfg false ops).contrib ≠ selectedNow cfg (run2 cfg false ops) :=
+  ⟨⟨false, false, false⟩, rfl, [.ingCreate ⟨.absent, true⟩, .classSet .ours], by decide⟩
+
+/-! ### facts regenerated from the Go source -/
+
+/-- config.go builds ControllerName from a non-empty literal (so `ctrlEmpty = false`); the
+legacy copy of IsValidIngress has the same decision skeleton as the one modelled; the Ingress
+handler still has the three classification branches -/
+theorem facts_c08 :
+    Facts.c08ControllerNameLit ≠ "" ∧ Facts.c08LegacySameSkeleton = true ∧
+    Facts.c08IsValidSkeleton =
+      ["ann, hasAnn = ing.Annotations[\"kubernetes.io/ingress.class\"]",
+       "if c.config.WatchIngressWithoutClass",
+       "fromAnn = !hasAnn || ann == c.config.IngressClass",
+       "fromAnn = hasAnn && ann == c.config.IngressClass",
+       "if className := ing.Spec.IngressClassName; className != nil",
+       "className := ing.Spec.IngressClassName",
+       "hasClass = true",
+       "if ingClass, err := c.GetIngressClass(*className); ingClass != nil",
+       "fromClass = c.IsValidIngressClass(ingClass)",
+       "if err != nil",
+       "if hasAnn",
+       "if hasClass && fromAnn != fromClass",
+       "if c.config.IngressClassPrecedence",
+       "return fromClass",
+       "return fromAnn",
+       "if hasClass",
+       "return fromClass",
+       "return fromAnn"] ∧
+    Facts.c08IsValidClassSkeleton = ["return ingressClass.Spec.Controller == c.config.ControllerName"] ∧
+    Facts.c08GetIngressClassSkeleton =
+      ["class := networking.IngressClass{}", "err := c.get(className, &class)", "return &class, err"] ∧
+    Facts.c08UpdBranches = ["oldValid && newValid", "!oldValid && newValid", "oldValid && !newValid"] ∧
+    Facts.c08IngressClassFull = true ∧ Facts.c08IngressFull = false := by
+  decide
+
 end HapVerif.C08
